@@ -22,7 +22,11 @@ EXPLANATION = ("H13: ReadAndProcessOnTheFly.read_and_process_content with xyz_re
 ASSUMPTIONS = [
     "str.split / readline / int() / float() themselves are trusted; a proper prefix (or the remaining suffix) of a written "
     "number parses to an arbitrary other number",
-    "the writer appends frames; a cut never removes earlier bytes; the GROMACS TRR reader (binary, struct) is outside this check",
+    "the writer appends frames; a cut never removes earlier bytes",
+    "TRR: read_trr_header / get_data (struct decoding) are replaced by extent-recording stubs with symbolic header (<= 1000 "
+    "bytes = TRR_HEAD_SIZE) and data sizes, constant over the run; the file size seen at every look is an arbitrary "
+    "non-decreasing integer; only the size guards and the frame bookkeeping of GromacsRunner are decided (byte order / "
+    "precision decoding is outside)",
     "atom ids are written in ascending order 1..N (the reader sorts by id; other orders only permute rows)",
 ]
 KNOWN_XYZ = "C13-xyz-reader-accepts-truncated-line"
@@ -146,7 +150,9 @@ def install():
 
 
 def functions():
-    return [iep.ReadAndProcessOnTheFly.read_and_process_content, iep.xyz_reader, iep.lammpstrj_reader]
+    import infretis.classes.engines.gromacs as igmx
+    return [iep.ReadAndProcessOnTheFly.read_and_process_content, iep.xyz_reader, iep.lammpstrj_reader,
+            igmx.GromacsRunner.get_gromacs_frames, igmx.read_remaining_trr]
 
 
 def bounds(tier, prop):
@@ -167,10 +173,13 @@ def instances(tier, prop):
                             "_cost": (natoms * 10) ** polls, "_splitbits": 3 if polls == 2 else 0})
         if fmt == "lammps":
             out.append({"fmt": fmt, "natoms": 1, "frames": 2, "polls": 1, "boxcols": 3, "_cost": 20})
+    for frames in ((1, 2) if tier == "quick" else (1, 2, 3)):
+        out.append({"fmt": "trr", "frames": frames, "polls": 3, "looks": 5 if tier == "quick" else 7, "_cost": 4 ** frames * 50,
+                    "_splitbits": 3 if frames >= 2 else 0})
     return out
 
 
-EXPECT = ["cut:inside-float", "cut:inside-structural", "cut:before-newline", "poll:returned-partial-set", "final:all-frames"]
+EXPECT = ["trr:all-frames", "trr:waited-for-data", "cut:inside-float", "cut:inside-structural", "cut:before-newline", "poll:returned-partial-set", "final:all-frames"]
 
 
 def _xyz_lines(natoms, frames):
@@ -232,6 +241,8 @@ def _complete_frames(lines, cut, fmt, natoms, per_frame):
 
 
 def run_instance(ctx, sh):
+    if sh["fmt"] == "trr":
+        return _trr(ctx, sh)
     fmt, natoms, frames, polls = sh["fmt"], sh["natoms"], sh["frames"], sh["polls"]
     lines = _xyz_lines(natoms, frames) if fmt == "xyz" else _lmp_lines(natoms, frames, sh["boxcols"])
     per_frame = natoms + 2 if fmt == "xyz" else natoms + 9
@@ -311,3 +322,104 @@ def run_instance(ctx, sh):
                 v = b[d, c]
                 v = v.value() if isinstance(v, FTok) else v
                 ctx.check(bool(v == ctx.real(f"f{f}b{d}c{c}")), "C13:returned-box-is-exactly-the-written-one", f"frame {f} {d},{c}")
+
+
+# ================================================================================================ TRR size guards (LIA)
+def _trr(ctx, sh):
+    """GromacsRunner.get_gromacs_frames / read_remaining_trr with symbolic header/data sizes and a symbolic, non-decreasing
+    file size at every look: every read extent must lie inside what is on disk at that moment; frames once, in order; after
+    the program has exited every complete frame is yielded."""
+    import infretis.classes.engines.gromacs as igmx
+    N = sh["frames"]
+    H = ctx.int("header_bytes", 1, 1000)
+    D = ctx.int("data_bytes", 1, 10 ** 6)
+    total = N * (H + D)
+    w = {"size": qconst(0), "looks": 0, "pos": qconst(0), "reads": [], "polls": 0, "exit_after": ctx.choice(sh["polls"] + 1, "exit-after-polls")}
+
+    def grow():
+        """the file has grown to an arbitrary size since the last look (all of it once the writer has exited)"""
+        w["looks"] += 1
+        if w["polls"] > w["exit_after"] or w["looks"] > sh["looks"]:
+            w["size"] = total
+            return total
+        s = ctx.int(f"size{w['looks']}", 0, None)
+        ctx.assume(ctx.rel(s, ">=", w["size"]))
+        ctx.assume(ctx.rel(s, "<=", total))
+        w["size"] = s
+        return s
+
+    class _Proc:
+        pid, returncode, stdin, stdout, stderr = 1, None, None, None, None
+
+        def poll(self):
+            w["polls"] += 1
+            if w["polls"] > w["exit_after"]:
+                self.returncode = 0
+                return 0
+            return None
+
+        def wait(self, timeout=None):
+            return 0
+
+    class _FH:
+        closed = False
+
+        def close(self):
+            self.closed = True
+
+    def read_header(fileh):
+        ok = w["pos"] + H <= w["size"]
+        ctx.check(ok, "C13:trr-header-read-lies-inside-what-is-on-disk", f"read at {w['pos']} of {H} bytes, size {w['size']}")
+        w["pos"] = w["pos"] + H
+        hdr = {k: 0 for k in igmx.TRR_DATA_ITEMS}
+        hdr["x_size"] = D
+        return hdr, H
+
+    def get_data(fileh, header):
+        ok = w["pos"] + D <= w["size"]
+        ctx.check(ok, "C13:trr-data-read-lies-inside-what-is-on-disk", f"read at {w['pos']} of {D} bytes, size {w['size']}")
+        w["pos"] = w["pos"] + D
+        w["reads"].append(len(w["reads"]))
+        return {"frame": len(w["reads"]) - 1}, D
+
+    class _OSP:
+        @staticmethod
+        def getsize(f):
+            return grow()
+
+    class _OS:
+        path = _OSP()
+        getpgid = staticmethod(lambda p: p)
+        killpg = staticmethod(lambda a, b: None)
+
+    names = ("os", "sleep", "read_trr_header", "get_data", "reopen_file")
+    saved = {k: getattr(igmx, k) for k in names}
+    igmx.os, igmx.sleep = _OS, (lambda t: None)
+    igmx.read_trr_header, igmx.get_data = read_header, get_data
+    igmx.reopen_file = lambda *a: (None, None)
+    r = igmx.GromacsRunner.__new__(igmx.GromacsRunner)
+    r.cmd, r.trr_file, r.edr_file, r.exe_dir = ["gmx"], "t.trr", "e.edr", "/exe"
+    r.fileh, r.running, r.bytes_read, r.ino, r.stop_read = _FH(), _Proc(), 0, 0, False
+    r.data_size, r.header_size, r.stdout, r.stderr, r.stdout_name, r.stderr_name = 0, 0, None, None, None, None
+    got = []
+    try:
+        try:
+            for data in r.get_gromacs_frames():
+                got.append(data["frame"])
+                ctx.check(bool(w["pos"] == len(got) * (H + D)), "C13:trr-reader-consumed-whole-frames-only", f"{w['pos']}")
+        except core.Inconclusive:
+            raise
+        except (core._Abort, core._Stop, core._Skip):
+            raise
+        except Exception as e:
+            core.reraise_if_proxy_limitation(e)
+            ctx.fail("C13:never-raises-on-a-partial-frame", f"trr: {e!r}")
+    finally:
+        for k, v in saved.items():
+            setattr(igmx, k, v)
+        r.running = None
+    ctx.check(got == list(range(len(got))), "C13:every-complete-frame-returned-exactly-once", f"trr order {got}")
+    ctx.check(len(got) == N, "C13:every-complete-frame-returned-exactly-once", f"trr: {len(got)} of {N} after the program exited")
+    ctx.cover("trr:all-frames")
+    if w["looks"] > 2:
+        ctx.cover("trr:waited-for-data")
